@@ -62,6 +62,12 @@ int set_indent_size(int indent_size) {
     return 0;
 }
 
+/*
+ * The TLV structure is processed recursively, one stack frame per nesting
+ * level. Limit the nesting to keep hostile input from exhausting the stack.
+ */
+#define UNBER_MAX_NESTING_LEVEL 2048
+
 typedef enum pd_code {
     PD_FAILED = -1,
     PD_FINISHED = 0,
@@ -141,6 +147,15 @@ process_deeper(const char *fname, input_stream_t *ibs, output_stream_t *os,
     ber_tlv_len_t tlv_len;
     ssize_t t_len;
     ssize_t l_len;
+
+    if(level > UNBER_MAX_NESTING_LEVEL) {
+        osprintfError(os,
+                      "%s: Too deep nesting (more than %d levels) at %lld. "
+                      "Broken or maliciously constructed file\n",
+                      fname, UNBER_MAX_NESTING_LEVEL,
+                      (long long)ibs->bytesRead(ibs));
+        return PD_FAILED;
+    }
 
     for(;;) {
         ber_tlv_len_t local_esize = 0;
